@@ -104,14 +104,24 @@ static int cmp_cb(const void *a, const void *b, void *priv)
     return r;
 }
 
+/* the documented reason for the swap callback is that the library cannot know what is inside an element and so must
+ * leave every move to the caller: with a caller's swap function, where each element ends up must be exactly what the
+ * sequence of swap calls says. `where` is that shadow arrangement (indices into the array as it was before the call). */
+static uint32_t *where; static size_t where_cap; static void *passed_tmp; static int where_on;
 static void swap_cb(void *a, void *b, void *t, size_t len)
 {
     CB_ENTER();
+    unsigned char own[MAXES];
     nswap++;
     if (!is_elem(a) || !is_elem(b)) VIOL("swap_foreign_pointer", "the swap function was handed a pointer that is not an element of the array");
-    if (t != (void *)scratch) VIOL("swap_foreign_scratch", "the swap function was handed scratch space other than the caller's scratch element");
+    if (t != passed_tmp) VIOL("swap_foreign_scratch", "the swap function was handed scratch space other than the caller's scratch element");
     if (len != es) VIOL("swap_len", "the swap function was told %zu bytes for %zu-byte elements", len, es);
-    memcpy(t, a, len); memcpy(a, b, len); memcpy(b, t, len);
+    /* this swap function ignores the scratch space it is offered (the callee is free to) */
+    memcpy(own, a, len); memcpy(a, b, len); memcpy(b, own, len);
+    if (where_on) {
+        size_t i = (size_t)((unsigned char *)a - arr) / es, j = (size_t)((unsigned char *)b - arr) / es;
+        uint32_t w = where[i]; where[i] = where[j]; where[j] = w;
+    }
     CB_LEAVE();
 }
 
@@ -173,7 +183,7 @@ static void z_exec(const plan_t *p)
         const op_t *o = &p->ops[k];
         static ssize_t sres;
         g_run.step = k; g_run.opkind = o->kind; g_run.steps++;
-        g_cur_ctx = "plain";
+        g_cur_ctx = "plain"; passed_tmp = scratch; where_on = 0;
         ncmp = 0; nswap = 0;
 
         switch (o->kind) {
@@ -224,9 +234,21 @@ static void z_exec(const plan_t *p)
             algoname = names[ai]; g_cur_ctx = algoname;
             cmpcap = 64 * (uint64_t)(n + 16) * (uint64_t)(n + 16);
             memcpy(ref, arr, n * es);
-            TRY(cstl_raw_array_sort(arr, n, es, cmp_cb, NULL, custom_swap ? swap_cb : cstl_swap, scratch, (cstl_sort_algorithm_t)algos[ai]));
+            passed_tmp = scratch;
+            if (custom_swap) {
+                if (where_cap < n + 1) { where_cap = n + 1; where = realloc(where, where_cap * sizeof where[0]); }
+                for (i = 0; i < n; i++) where[i] = (uint32_t)i;
+                where_on = 1;
+                if (o->a[1] & 2) { passed_tmp = NULL; PROBE("custom_swap_without_scratch"); }       /* legal: this swap function needs none */
+            }
+            TRY(cstl_raw_array_sort(arr, n, es, cmp_cb, NULL, custom_swap ? swap_cb : cstl_swap, passed_tmp, (cstl_sort_algorithm_t)algos[ai]));
             if (g_aborted) VIOL(g_aborted == 2 ? "assert" : "abort", "sort aborted");
+            where_on = 0;
             check_same_multiset("sort");
+            if (custom_swap)
+                for (i = 0; i < n; i++)
+                    if (memcmp(arr + i * es, ref + (size_t)where[i] * es, es) != 0)
+                        VIOL("moved_without_swap", "sort (%s, %zu elements of %zu bytes) with a caller's swap function: position %zu does not hold the element the sequence of swap calls put there (an element was moved behind the caller's back)", algoname, n, es, i);
             for (i = 1; i < n; i++)
                 if (key_of(arr + (i - 1) * es) > key_of(arr + i * es))
                     VIOL("not_sorted", "sort (%s, %zu elements of %zu bytes): element %zu compares greater than element %zu", algoname, n, es, i - 1, i);
@@ -378,7 +400,7 @@ static void z_gen(prng_t *r, int mode, plan_t *p)
         for (j = 0; j < ns; j++) {
             op_t *s = plan_add(p, Z_SORT);
             int k2, nq = 1 + (int)prng_below(r, 4);
-            s->a[0] = prng_below(r, 8); s->a[1] = prng_below(r, 2);
+            s->a[0] = prng_below(r, 8); s->a[1] = prng_below(r, 4);
             for (k2 = 0; k2 < nq; k2++) { op_t *f = plan_add(p, prng_chance(r, 3, 4) ? Z_SEARCH : Z_FIND); f->a[0] = prng_next(r) >> 8; f->a[1] = prng_below(r, 2); }
             if (prng_chance(r, 1, 3)) { op_t *v = plan_add(p, Z_REVERSE); v->a[0] = prng_below(r, 2); }     /* the next sort sees reversed input */
         }
